@@ -74,5 +74,23 @@ fn main() {
         let st = dfs::explore(&cfg, &move || c17::run_large(TKind::Model, d));
         c.add_dfs(&part, &st);
     }
+    // A connection created with a 96 KiB buffer, filled to the advertised credit and read back.
+    for cap in [96 * 1024u32, 65536 + 1] {
+        let (n, v) = match vlab::util::catch(|| c17::run_big_capacity(TKind::Model, cap)) {
+            Ok(r) => r,
+            Err(p) => {
+                if vlab::util::is_driver_panic(&p) {
+                    (1, vec![("driver-panic".to_string(), p)])
+                } else {
+                    c.machinery_error(format!("big-capacity run: harness panic: {}", p));
+                    (0, vec![])
+                }
+            }
+        };
+        c.add_sweep(&format!("big-capacity:{}: the peer fills the advertised receive space completely, then everything is read back", cap), n, 1, true, vlab::util::J::obj());
+        for (k, d) in v {
+            c.add_violation(vlab::engine::Violation::new("C17", k, d.clone()), "big-capacity", vlab::util::J::obj().set("kind", vlab::util::J::s("case")).set("case", vlab::util::J::s(d)), vec![]);
+        }
+    }
     c.finish();
 }
